@@ -70,8 +70,14 @@ def run_case(col, case):
         # dynamic size: the geometry is whatever the automatic size gives for this terminal
         def prepare(run):
             nonlocal exp
+            for what, exc, size in run.pre_log:
+                if exc is not None:
+                    bad("history-draw-raised", f"an earlier draw() of the history {case.get('pre')} raised {exc}")
+                if not size.startswith("<Size."):
+                    bad("dynamic-size-kept", f"after an earlier draw() of the history the dynamic size setting became "
+                        f"{size}")
             run.case = dict(case, srcsize=case["size"], size=tuple(run.subject.rendered_size), dyn=False)
-            exp = cc.expected(run.case)
+            exp = cc.expected(dict(run.case, dyn=True))     # a dynamic size is never rejected
     else:
         prepare = None
 
@@ -90,6 +96,10 @@ def run_case(col, case):
 
     run = cc.execute(case, on_frame=on_frame if exp.reject is None else None, prepare=prepare)
     base = sig_base(case, exp)
+    if case.get("pre"):
+        base["history"] = "+".join(st["op"] for st in case["pre"])
+    if prepare is not None and not repr(run.subject.size).startswith("<Size."):
+        bad("dynamic-size-kept", f"after draw() the dynamic size setting of the image became {run.subject.size!r}")
     so, term = run.stdout, run.term
     if exp.reject is not None:
         name = type(run.exc).__name__ if run.exc is not None else None
@@ -228,11 +238,18 @@ def build_cases(tier):
                                           cache=cache, size=size, pad=pad, term=(6, 5), row0=row0, isatty=isatty,
                                           hide_cursor=hide, echo_input=echo, animate=animate, seek=seek))
     # INDEFINITE frame count (a stream that ends): loops / cache do not apply
-    for (cls, mode), size, stream in itertools.product(NEW_CLS, [(2, 2), (3, 1)], (1, 2, 3)):
+    # (Frame.number is unspecified for such renderables: numbered by stream position, or all 0)
+    for (cls, mode), size, stream in itertools.product(NEW_CLS, [(2, 2), (3, 1)], (1, 2, 3, 4, 5)):
         for pad in (("exact", 1, 0, 1, 2, " "), ("aligned", 0, -2, 1, 1, " "), ("exact", 0, 0, 0, 0, " ")):
             for row0, isatty in itertools.product(range(5), (True, False)):
-                cases.append(dict(part="T", api="new", cls=cls, mode=mode, frames=stream, indef=True, loops=1,
-                                  cache=False, size=size, pad=pad, term=(6, 5), row0=row0, isatty=isatty))
+                for number_mode in ("position", "zero"):
+                    if number_mode == "zero" and (stream < 2 or not isatty and quick):
+                        continue
+                    if quick and stream > 3 and row0 not in (0, 4):
+                        continue
+                    cases.append(dict(part="T", api="new", cls=cls, mode=mode, frames=stream, indef=True, loops=1,
+                                      cache=False, size=size, pad=pad, term=(6, 5), row0=row0, isatty=isatty,
+                                      number_mode=number_mode))
     # relative padding dimensions whose magnitude reaches the terminal dimension: "equivalent to the absolute
     # dimension max(terminal_dimension + relative_dimension, 1)" - the padded size is max(render, clamp)
     clamp = [((6, 1), ("aligned", 0, -2, 1, 1, " ")), ((6, 2), ("aligned", 0, -2, 1, 1, " ")),
@@ -298,6 +315,19 @@ def build_cases(tier):
                 cases.append(dict(part="W", api="old", style=style, ident=ident, method=method, frames=frames, repeat=1,
                                   cached=False, size=(3, 3), dyn=True, fmt=(None, 0, None, -2), term=term, row0=row0,
                                   isatty=True, check_size=check, scroll=scroll))
+    # ---- part H: histories - an image with a dynamic size is drawn, the terminal is resized, it is drawn again:
+    # never rejected, placed for the size that fits the terminal at that moment, the size setting stays dynamic
+    histories = [[dict(op="draw", kw=dict(animate=True))], [dict(op="draw", kw=dict(animate=False))],
+                 [dict(op="draw", kw=dict(animate=True)), dict(op="resize", term=(5, 4)),
+                  dict(op="draw", kw=dict(animate=True))]]
+    for style, ident, method in (OLD_COMBOS[:2] + OLD_COMBOS[7:8] if quick else OLD_COMBOS):
+        for pre, (term0, term) in itertools.product(histories, [((8, 7), (6, 5)), ((8, 7), (4, 3)), ((6, 5), (8, 7))]):
+            for frames, animate, check in ((2, True, True), (2, False, True), (2, False, False), (3, True, True)):
+                for row0 in sorted({0, term[1] - 1}):
+                    cases.append(dict(part="H", api="old", style=style, ident=ident, method=method, frames=frames,
+                                      repeat=1, cached=False, size=(3, 3), dyn=True, fmt=(None, 0, None, -2),
+                                      term0=term0, term=term, pre=pre, row0=row0, isatty=True, check_size=check,
+                                      animate=animate))
     return cases
 
 
@@ -344,7 +374,8 @@ def run(ctx):
                 "terminal) triples of accepted draws that fit the terminal width")
     ctx.coverage.update(cases=len(cases), parts=dict(N="new API placement", T="new API tty settings",
                                                      V="new API validation table", O="old API placement",
-                                                     W="old API validation table"),
+                                                     W="old API validation table",
+                                                     H="old API histories: draw, resize, draw (dynamic size)"),
                         terminals=sorted({tuple(c["term"]) for c in cases}),
                         old_api_combos=len(OLD_COMBOS) + len(KITTY_GATE))
     ctx.assumptions += ["vterm (vlib/vterm.py, DESIGN appendix A) is the terminal, the tty applies ONLCR",
